@@ -20,11 +20,16 @@ for d in sorted(os.listdir(os.path.join(V, "seeded")), key=lambda x: (x.split("-
     summ = (m.get("summary") or "").replace("|", "/").replace("\n", " ")
     if len(summ) > 150:
         summ = summ[:147] + "..."
-    rows.append("| %s | %s | %s | %s%s |" % (d, m.get("property", "?"), summ, "; ".join(caught) if caught else "**NOT caught**", note))
+    verdict = "; ".join(caught) if caught else "**NOT caught**"
+    if not caught and m.get("judgement"):
+        # a seed the property text does not forbid (my judgement, with the reason): not detected on purpose
+        verdict = "not flagged on purpose: " + m["judgement"]
+    rows.append("| %s | %s | %s | %s%s |" % (d, m.get("property", "?"), summ, verdict, note))
 table = "| seed | breaks | change | caught by (clauses) |\n| --- | --- | --- | --- |\n" + "\n".join(rows)
 n = len(rows)
-nc = sum(1 for r in rows if "NOT caught" not in r)
-table += "\n\n%d seeded changes kept, %d caught by the quick check of their property.\n" % (n, nc)
+nc = sum(1 for r in rows if "NOT caught" not in r and "not flagged on purpose" not in r)
+nj = sum(1 for r in rows if "not flagged on purpose" in r)
+table += "\n\n%d seeded changes kept, %d caught by the quick check of their property, %d judged to lie outside the property text.\n" % (n, nc, nj)
 p = os.path.join(V, "DESIGN.md")
 s = open(p).read()
 a = s.index("<!-- SEEDED-TABLE-BEGIN -->") if "<!-- SEEDED-TABLE-BEGIN -->" in s else None
